@@ -88,7 +88,11 @@ def ast_info(st, K=None):
     def is_star_sub(r):
         return r["k"] == "derived" and any(it["e"][0] == "star" for it in r["q"]["branches"][0]["items"])
 
+    cte_names = {}
+
     def q(qq):
+        for c in qq["ctes"]:
+            cte_names[c["name"]] = sqlgen.out_names(c["q"]) or []
         if len(qq["branches"]) > 1:
             n = [x for x in names_of(qq["branches"][0]) if x]
             if len(n) != len(set(n)):
@@ -105,10 +109,24 @@ def ast_info(st, K=None):
             if len(rels) > 1 and any(_has_unq(it["e"]) for it in sel["items"]):
                 info["unq_multi_levels"] += 1
             if "star" in kinds:
-                # names the star expands to (derived output lists, known base tables) next to the explicit items' names
-                exposed = [n for r in rels if r["k"] == "derived" for n in (sqlgen.out_names(r["q"]) or []) if n]
-                exposed += [n for r in rels if r["k"] == "base" for n in (K or {}).get(refsem.fq(r["t"], K and "main"), [])]
-                exposed += [n for n in names_of(sel) if n]
+                # output names of the select list with every star expanded (derived / CTE output lists, known base tables)
+                def rel_names(r):
+                    if r["k"] == "derived":
+                        return [n for n in (sqlgen.out_names(r["q"]) or []) if n]
+                    if r["k"] == "cte":
+                        return [n for n in cte_names.get(r["name"], []) if n]
+                    return list((K or {}).get(refsem.fq(r["t"], K and "main"), []))
+
+                exposed = []
+                for it in sel["items"]:
+                    if it["e"][0] == "star":
+                        for r in rels:
+                            if it["e"][1] is None or it["e"][1] in (r.get("alias"), r.get("name"), (r.get("t") or {}).get("n")):
+                                exposed += rel_names(r)
+                    else:
+                        n = it["alias"] or (it["e"][2] if it["e"][0] == "col" else None)
+                        if n:
+                            exposed.append(n)
                 if len(exposed) != len(set(exposed)):
                     info["star_over_relations_sharing_a_name"] = True
 
@@ -144,8 +162,11 @@ def classify(st, dialect, res):
         return "F-C02-alias-inside-parenthesised-join-not-recognised"
     if "kind:update" in f and not st.get("from") and miss and extra and all("." not in e[0] for e in extra):
         return "F-C02-update-without-from-source-column-has-no-owner"
-    if info["star_over_relations_sharing_a_name"] and miss and (not extra or res.get("K")):
+    if info["star_over_relations_sharing_a_name"] and miss and (not extra or res.get("K") or st.get("collist")):
         return "F-C11-star-over-tables-sharing-a-column-name"
+    if info["join_inside_derived_under_join"] and res.get("K") and miss and not extra:
+        # with every table known the leaked table is resolved against directly, bypassing the derived table's other branches
+        return "F-C02-join-inside-derived-table-leaks-into-outer-scope"
     if info["join_inside_derived_under_join"] and "item:star" in f and extra and not miss and all(e[0] == "<none>" for e in extra):
         return "F-C02-join-inside-derived-table-leaks-into-outer-scope"  # the leaked table's wildcard is left without a target
     if info["dup_names_in_setop"]:
